@@ -8,7 +8,7 @@ BASE = "cd /repo && /venv/bin/python -m pytest -ra -q -p no:cacheprovider --time
 CHECKS = {
     "C01": dict(
         category="proof",
-        text="Lean 4 theorems (C-finite extension: a closed form of known exponential-polynomial shape that agrees with A^n v on a window agrees for all n; Cayley-Hamilton annihilation of matrix sequences) plus an end-to-end correspondence run: the real pipeline's closed forms are evaluated exactly at n=0..N and compared with E(M) under the Lean reference semantics compiled from the same definitions. The theorem part is for all n; the tie to the code is differential and sampled.",
+        text="Lean 4 theorems (C-finite extension: a closed form of known exponential-polynomial shape that agrees with A^n v on a window agrees for all n; Cayley-Hamilton annihilation of matrix sequences) plus an end-to-end correspondence run: the real pipeline's closed forms are evaluated exactly at n=0..N and compared with E(M) under the Lean reference semantics compiled from the same definitions. The theorem part is for all n; the tie to the code is differential and sampled. As built (DESIGN §10.2): for every sampled program in the validator fragment the chain V1/V1C (types inductive) + V2/V2C (every recurrence equation a one-step identity on all typed states) + initial vector + C-finite window validator proves the reported closed form equal to the expectation for ALL n; the merged oracle run is tied to the un-merged semantics by Merge.moment_merged_eq_unmerged.",
         design_ref="§4 C01, §2.2, §2.4",
         note="Trusted: Lean kernel + propext/Classical.choice/Quot.sound; Lean compiler for polar-model; harness generator/printer; sympy exact evaluation of Polar's own closed form at integers; textbook moment recurrences of continuous families. Modelled not verified: lark/symengine front end, sympy summation/roots.",
         technique="Lean 4 proof: per-instance for-all-n chain (types inductive V1/V1C, one-step recurrences V2/V2C, C-finite window validator, merged run = un-merged run) + differential correspondence against the Lean reference semantics",
@@ -60,14 +60,14 @@ CHECKS = {
 CHECKS.update({
     "C02": dict(
         category="proof",
-        text="Per-instance translation validation judged by the Lean reference semantics: the real normalize_program is run with every Transformer.execute wrapped; the program after each pass is converted to the model AST and executed by the compiled Lean semantics; obligation per snapshot: same joint law over the source variables at n=0..3 (discrete programs) or same mixed moments up to degree 3, for two different initial values of all auxiliary variables (no information carried across iterations), for all four settings of cond2arithm / transform_categoricals. Universal pass theorems are not yet proved: the level is partial - the judge (semantics) is Lean, the quantifier over programs is sampled.",
+        text="Per-instance translation validation judged by the Lean reference semantics: the real normalize_program is run with every Transformer.execute wrapped; the program after each pass is converted to the model AST and executed by the compiled Lean semantics; obligation per snapshot: same joint law over the source variables at n=0..3 (discrete programs) or same mixed moments up to degree 3, for two different initial values of all auxiliary variables (no information carried across iterations), for all four settings of cond2arithm / transform_categoricals. Universal pass theorems are not yet proved: the level is partial - the judge (semantics) is Lean, the quantifier over programs is sampled. As built (DESIGN §10.2): consecutive snapshots and parsed->final additionally go through the verified one-step bisimulation validator V3 / V3C (checkSameStep_sound, V3C.checkSameStepC_sound): acceptance proves the same law over the source variables for ALL n; a V3C 'not same' (incomplete validator) is decided by exact moments.",
         design_ref="§4 C02",
         note="Trusted: Lean kernel/compiler, the conversion of Polar's Program objects to the model AST (harness/tasks/convert.py). Not modelled: Bernoulli abstraction of non-finite conditions, Sin/Cos/Exp assignments.",
         technique="Lean 4 proof: verified one-step bisimulation validator (V3/V3C soundness theorems, all n) applied to every real normalisation pass + differential correspondence against the Lean reference semantics",
     ),
     "C03": dict(
         category="proof",
-        text="For every equation of every recurrence system the real RecBuilder produces on sampled programs: E(M)(n+1) = sum c_i E(M_i)(n) + c at n=0..N-1 and init = E(M)(0), expectations under the Lean reference semantics of the normalised program; closure of the system and agreement of the matrix/vector handed to the solvers with the dictionary are checked structurally. Partial: the universal theorem c03_one_step is not yet proved for the model of the builder.",
+        text="For every equation of every recurrence system the real RecBuilder produces on sampled programs: E(M)(n+1) = sum c_i E(M_i)(n) + c at n=0..N-1 and init = E(M)(0), expectations under the Lean reference semantics of the normalised program; closure of the system and agreement of the matrix/vector handed to the solvers with the dictionary are checked structurally. Partial: the universal theorem c03_one_step is not yet proved for the model of the builder. As built (DESIGN §10.2): every equation additionally goes through the verified validator V2 / V2C (checkOneStep_sound, checkOneStepC_sound, recurrence_holds_forall_n): acceptance proves the one-step identity on every typed state, hence the recurrence for ALL n.",
         design_ref="§4 C03",
         note="Trusted: Lean kernel/compiler (Polar/Sem.lean), AST conversion, sympy Rational arithmetic for coefficient values at the parameter point.",
         technique="Lean 4 proof: verified one-step recurrence validator (V2/V2C soundness, recurrence_holds_forall_n) applied to every equation of the real RecBuilder + differential correspondence against the Lean reference semantics",
@@ -135,7 +135,7 @@ CHECKS.update({
 CHECKS.update({
     "C10": dict(
         category="proof",
-        text="For generated parametric programs both methods of the real tool (differentiating the closed form; DiffRecBuilder's sensitivity recurrences) are evaluated at n=0..3 and compared with the exact derivative d/dp E(M)(n) at the parameter point. The exact derivative comes from the Lean reference semantics: E(M)(n) is a polynomial in p; it is evaluated exactly at 13 parameter values, the degree bound 10 is verified by two spare points, and the derivative of the interpolating polynomial is taken. Partial: the theorems deriv_of_linear_rec / dependentVars_sound of the design are not yet proved.",
+        text="For generated parametric programs both methods of the real tool (differentiating the closed form; DiffRecBuilder's sensitivity recurrences) are evaluated at n=0..3 and compared with the exact derivative d/dp E(M)(n) at the parameter point. The exact derivative comes from the Lean reference semantics: E(M)(n) is a polynomial in p; it is evaluated exactly at 13 parameter values, the degree bound 10 is verified by two spare points, and the derivative of the interpolating polynomial is taken. Partial: the theorems deriv_of_linear_rec / dependentVars_sound of the design are not yet proved. As built (DESIGN §10.2): the delta-rows of the real DiffRecBuilder system are compared symbolically with the product rule applied to RecBuilder's rows, pruned terms are justified, and the reported closed form is validated against the augmented linear system by the window validator: with Sens.sens_pruned_sound / sens_unique the sensitivity is proved for ALL n per instance.",
         design_ref="§4 C10",
         note="Trusted: Lean kernel/compiler (reference semantics), exact Lagrange interpolation in the harness.",
         technique="Lean 4 proof (solution of the differentiated recurrence system is the parameter derivative for all n; pruned system sound under closure hypotheses checked per instance; window validator) + differential correspondence with an exact derivative oracle",
@@ -149,7 +149,7 @@ CHECKS.update({
     ),
     "C20": dict(
         category="proof",
-        text="The same jobs (program, goals, settings) are run each alone in a fresh process, and all in one process in random orders with repetitions and goal permutations, under several PYTHONHASHSEED values; canonical results (exact values of every goal, exactness flags, inferred types up to generated names, error outcomes) must coincide. Partial by nature: CPython hashing, lru_cache internals and object identity are runtime behaviour no executable model exhibits; the state-machine theorems of the design (alpha-independence of the name counter, memo transparency) are not yet proved.",
+        text="The same jobs (program, goals, settings) are run each alone in a fresh process, and all in one process in random orders with repetitions and goal permutations, under several PYTHONHASHSEED values; canonical results (exact values of every goal, exactness flags, inferred types up to generated names, error outcomes) must coincide. Partial by nature: CPython hashing, lru_cache internals and object identity are runtime behaviour no executable model exhibits; the state-machine theorems of the design (alpha-independence of the name counter, memo transparency) are not yet proved. As built (DESIGN §10.2): the normalised programs of the two histories are compared up to auxiliary names; equality gives equal source moments for ALL n by Ren.aux_names_irrelevant.",
         design_ref="§4 C20",
         note="Trusted: canonicalisation of generated names (harness/tasks/session.py).",
         technique="Lean 4 proof (injective renaming of auxiliary names leaves all source moments unchanged for all n; applied per instance to the normalised programs of the two histories) + history / hash-seed differential testing of the real code",
